@@ -1349,9 +1349,18 @@ func windowSpecSQL(w *WindowSpec) string {
 
 func windowFrameSQL(f *WindowFrame) string {
 	if f.End != nil {
-		return fmt.Sprintf("%s BETWEEN %s AND %s", f.Type, f.Start.Type, f.End.Type)
+		return fmt.Sprintf("%s BETWEEN %s AND %s", f.Type, frameBoundSQL(&f.Start), frameBoundSQL(f.End))
 	}
-	return fmt.Sprintf("%s %s", f.Type, f.Start.Type)
+	return fmt.Sprintf("%s %s", f.Type, frameBoundSQL(&f.Start))
+}
+
+// frameBoundSQL writes "<offset> PRECEDING" / "<offset> FOLLOWING" with the offset expression the
+// bound carries; UNBOUNDED ... and CURRENT ROW have none.
+func frameBoundSQL(b *WindowFrameBound) string {
+	if b.Value != nil {
+		return exprSQL(b.Value) + " " + b.Type
+	}
+	return b.Type
 }
 
 func fetchSQL(f *FetchClause) string {
